@@ -38,6 +38,7 @@ func (e *Env) models() (*wiring.GoModel, *wiring.YModel, bool) {
 		e.R.Undecide("W", selfRel+"/gontainer.go#shape", "construct of the generated constructor outside the shapes the templates emit: "+pr)
 	}
 	e.gm, e.ym = gm, ym
+	currentGM = gm
 	e.R.Analysed["wiring_go_services"] = len(gm.Services)
 	e.R.Analysed["wiring_go_params"] = len(gm.Params)
 	e.R.Analysed["wiring_go_decorators"] = len(gm.Decorators)
